@@ -8,7 +8,7 @@ reg("C11",
               "c11_returns_refuted_unfixed", "c11_error_refuted_unfixed"],
     proof_files=["Base/Prelude.v", "Model/FileSeq.v", "Model/Pipeline.v", "Spec/C10_Spec.v", "Spec/C11_Spec.v",
                  "Proofs/FileSeqFacts.v", "Proofs/PipelineDefs.v", "Proofs/PipelineInv.v",
-                 "Proofs/PipelineLive.v", "Proofs/C10_Proofs.v", "Proofs/C11_Proofs.v",
+                 "Proofs/PipelineLive.v", "Proofs/C10_Proofs.v", "Proofs/PipelineBound.v", "Proofs/C11_Proofs.v",
                  "Properties/C11.v", "Check/C10_Check.v", "Check/C11_Check.v"],
     codes={1: "model-mismatch", 2: "property-checker-rejects-impl", 3: "mismatch+property",
            4: "run-did-not-return", 5: "handler-called-after-return-or-wrong-cursor"},
